@@ -26,6 +26,8 @@
 (*        ID, QName, gYear, anySimpleType ... become a path to a type that   *)
 (*        does not exist                                                    *)
 (*  "D37" ref= without a prefix: the member carries no namespace            *)
+(*  "D39" elementFormDefault / form are ignored: every local element is     *)
+(*        qualified (XSD's default is unqualified)                          *)
 (*  "D23c" a user type whose local name is that of an XSD builtin (date,    *)
 (*        string, ...) is taken for the builtin                             *)
 (* With D = {} the walk is the repaired code.                               *)
@@ -46,7 +48,8 @@ MkField(S, f, it, p, par, inchoice, D) ==
   LET opt == p.min = 0 \/ par.min = 0
       vec == IF "D08" \in D THEN (p.max = "unb" \/ par.max = "unb") ELSE (p.max # "1" \/ par.max # "1")
       w == IF vec THEN "Vec" ELSE IF opt \/ (inchoice /\ "D09" \notin D) THEN "Option" ELSE "Bare"
-  IN [xml |-> p.n, attr |-> FALSE, w |-> w, target |-> BuiltTarget(S, f, it, p.ty, D), ns |-> f.tns]
+  \* "D39": every local element is given the target namespace, whatever its form
+  IN [xml |-> p.n, attr |-> FALSE, w |-> w, target |-> BuiltTarget(S, f, it, p.ty, D), ns |-> IF "D39" \in D THEN f.tns ELSE ElNs(f, p)]
 
 MkRefField(S, f, it, p, par, inchoice, D) ==
   LET opt == p.min = 0 \/ par.min = 0
